@@ -110,6 +110,10 @@ def verify_one(job):
                 for i, cj in enumerate(cs):
                     split.append(Obligation(f"{ob.name}.{i}", hyps, cj, ob.kind, ob.lineno, ob.func, dict(ob.extra, clause=f"{ob.extra.get('clause', '')} [conjunct {i}: {str(cj)[:60]}]")))
                     hyps = hyps + [cj]
+        if job.get("part"):
+            # a long function is verified by several workers: each one executes it symbolically and discharges its share
+            k_, n_ = job["part"]
+            split = [ob for idx_, ob in enumerate(split) if idx_ % n_ == k_]
         for ob in split:
             r = smt.discharge(ob, axioms, timeout)
             rec = {"name": ob.name, "kind": ob.kind, "status": r["status"], "time": round(r["time"], 3), "backend": r["backend"],
